@@ -6,7 +6,7 @@ import struct
 
 from ..lin import Lin, Infeasible
 from ..avals import *   # noqa
-from ..decide import benign_unknown, Runs, need_ge0, need_eq0, definite, soft
+from ..decide import require_instances, benign_unknown, Runs, need_ge0, need_eq0, definite, soft, iterations
 from ..report import Ob, PROVED, REFUTED, UNDECIDED, func_where, ASSUMPTIONS, Failure
 from ..model import norm_text, AnalysisError
 from ..units import exc_key
@@ -122,6 +122,50 @@ def check(prog, res, tier):
                                       f'the unmodified record to its sink', func_where(wfi),
                              'self.out_file.write(record_length_raw); self.out_file.write(record)', chk_b,
                              rule=f'C03.b.{"blocked" if bl else "vbs"}'))
+
+    # ---------------- C03.b write_many: every record of the iterable is handed to write(), one by one and in order
+    wci_ = prog.cls('mciipm.VbsWriter')
+    mres = wci_.lookup('write_many')
+    if mres and mres[0] == 'method':
+        mfi_ = mres[1]
+
+        def write_cap(it, fi_, args, kwargs, node, self_obj):
+            it.user.setdefault('written', []).append((it.seqno, it.resolve(args[0]) if args else None))
+            it.seqno += 1
+            return ConstV(None)
+
+        def entry_many(it):
+            obj, f = make_writer(it, prog, blocked=False)
+            recs = IterV(it.sym_bytes('record', lo=1, hi=MAX), desc='records')
+            it.user['recs'] = recs
+            it.call_function(mfi_, [recs], {}, self_obj=obj)
+            return obj
+        runs_many = Runs(prog, entry_many, summaries={wfi.short: write_cap}, res=res)
+        seen_many = {'n': 0}
+
+        def chk_many(p, mode):
+            fails = []
+            direct = sink_writes(p, p.interp.user['file'])
+            if direct:
+                # write_many talks to the sink itself (batching ...): the order and the framing of what it writes are not
+                # followed record by record
+                fails.append(soft('write_many writes to the sink itself instead of going through write() for every record'))
+            for first, last, s0, s1, head in iterations(p, func=mfi_.short):
+                li = [e for e in p.events if e.kind == 'loop-iter' and e.node is head.node and first <= e.seq < last]
+                if not li:
+                    continue
+                elem = p.interp.resolve(li[-1].data.get('elem'))
+                mine = [v for sq, v in p.interp.user.get('written', []) if first < sq <= last]
+                seen_many['n'] += mode == 'inv'
+                if len(mine) != 1 or mine[0] is not elem:
+                    fails.append(definite(f'an iteration of write_many hands {len(mine)} records to write(), not exactly the record it took '
+                                          f'from the iterable', head.node) if not direct else
+                                 soft('a record taken from the iterable is not handed to write() in the same iteration'))
+            return fails
+        res.add(require_instances(
+            runs_many.judge('C03.b', 'VbsWriter.write_many hands every record of the iterable to write(), one per iteration, in order',
+                            func_where(mfi_), 'for record in iterable: self.write(record)', chk_many, rule='C03.b.many'),
+            seen_many['n'], 'a loop of write_many over the iterable'))
 
     def entry_c(it):
         obj, f = make_writer(it, prog, blocked=False)
